@@ -235,3 +235,65 @@ def spline_dofs():
     finally:
         topology.StructuredTopology._localsplinebasis = orig
     _finish('_basis_spline', cases, failures)
+
+
+def discont_partition():
+    """Basis.discontinuous_at_partition_interfaces(part_indices) on small 1-D and 2-D meshes, for EVERY assignment of the elements to
+    <= 3 parts (also descending and gapped part numbers): the new dofs are in bijection with the distinct (part, parent dof) pairs,
+    element dofs are the images of the parent element dofs, coefficients are the parent's, get_support is the inverse of get_dofs and
+    every support lies inside one part (BOUNDED native enumeration)."""
+    import itertools, json, numpy
+    from nutils import mesh
+    cases, failures = 0, []
+
+    def fail(clause, **kw):
+        failures.append(dict(clause=clause, **kw))
+    for shape, btype, degree in (((3,), 'std', 1), ((4,), 'std', 1), ((3,), 'std', 2), ((3,), 'spline', 2), ((2, 2), 'std', 1)):
+        dom, geom = mesh.rectilinear([numpy.linspace(0, 1, n + 1) for n in shape])
+        parent = dom.basis(btype, degree=degree)
+        nel = len(dom)
+        pdofs = [parent.get_dofs(e).tolist() for e in range(nel)]
+        for parts in itertools.product((0, 1, 3), repeat=nel):
+            cases += 1
+            what = dict(mesh=list(shape), basis=btype, degree=degree, parts=list(parts))
+            try:
+                b = parent.discontinuous_at_partition_interfaces(numpy.array(parts))
+            except Exception as e:
+                fail('dofs-are-the-distinct-(part,parent-dof)-pairs', error='%s: %s' % (type(e).__name__, str(e)[:100]), **what)
+                continue
+            pairs = sorted({(p, d) for e, p in enumerate(parts) for d in pdofs[e]})
+            if b.ndofs != len(pairs):
+                fail('dofs-are-the-distinct-(part,parent-dof)-pairs', ndofs=int(b.ndofs), expected=len(pairs), **what)
+                continue
+            newdofs = [b.get_dofs(e).tolist() for e in range(nel)]
+            seen = {}
+            ok = True
+            for e, p in enumerate(parts):
+                if len(newdofs[e]) != len(pdofs[e]):
+                    ok = False
+                    break
+                for nd, d in zip(newdofs[e], pdofs[e]):
+                    if seen.setdefault(nd, (p, d)) != (p, d) or not 0 <= nd < b.ndofs:
+                        ok = False
+            if not ok or len(seen) != len(pairs):
+                fail('dofs-are-the-distinct-(part,parent-dof)-pairs', newdofs=newdofs, **what)
+                continue
+            for e in range(nel):
+                if not numpy.array_equal(numpy.asarray(b.get_coefficients(e)), numpy.asarray(parent.get_coefficients(e))):
+                    fail('coefficients-are-the-parents', element=e, **what)
+                    break
+            for nd, (p, d) in seen.items():
+                supp = b.get_support(nd).tolist()
+                want = [e for e in range(nel) if nd in newdofs[e]]
+                if supp != want:
+                    fail('support-is-the-inverse-of-the-dof-lists', dof=nd, support=supp, expected=want, **what)
+                    break
+                if any(parts[e] != p for e in supp):
+                    fail('support-lies-inside-one-part', dof=nd, support=supp, **what)
+                    break
+    print('BOUNDED-RESULT ' + json.dumps(dict(cases=cases, failures=failures[:10])))
+    if failures:
+        print('discontinuous_at_partition_interfaces: %s' % failures[0])
+        print('REPLAY: VIOLATION-CONFIRMED the partition-discontinuous basis does not have one dof per (part, parent dof) pair')
+    else:
+        print('REPLAY: not reproduced (%d cases)' % cases)
